@@ -127,17 +127,31 @@ end Orbit
 
 namespace Orbit
 
-/-- One head of `Load(amount)`: `NewFromEntryHash(head, length = amount)` gives a log over the
-fetched entries (heads = `FindHeads`), which is joined with a trim only when one is needed
-(`size = amount` if the merged log would exceed it, else `-1`: after the `fix:` commit — the pinned
-tree passed `amount` unconditionally, see `loadHeadPinned`). `fetch h` is the bounded Fetcher of
-go-ipfs-log (a parameter; contract in DESIGN §7). -/
-def loadHead (acl : Acl) (fetch : Nat → OMap) (amount : Int) (L : Log) (h : Nat) : Except Err Log :=
+/-- One head of `Load(amount)` as it was after the F11 repair and before the F30 one:
+`NewFromEntryHash(head, length = amount)` gives a log over the fetched entries (heads = `FindHeads`),
+which is joined with a trim only when the ESTIMATE `Len() + new entries` exceeds the amount. On a log
+with holes the estimate is above what `Join` will list, and the trim panics (`loadHead0_panics_on_holes`). -/
+def loadHead0 (acl : Acl) (fetch : Nat → OMap) (amount : Int) (L : Log) (h : Nat) : Except Err Log :=
   let l := logOfEntries L.id (fetch h)
   let merged : Int := L.entries.length + (l.entries.filter (fun e => !has L.entries e.hash)).length
   let size : Int := if amount > -1 && amount ≥ merged then -1 else amount
   match joinSize acl.canAppend L l.entries l.heads l.id size with
   | .ok L' => .ok L'
+  | .error .panic => .error .panic
+  | .error _ => .ok L            -- a failed join is ignored by `Load`
+
+/-- One head of `Load(amount)` (after the `fix:` commit, finding F30): the fetched log is joined
+WITHOUT a trim; only when the merged log then LISTS more than `amount` entries is `Join(l, amount)`
+called a second time. Joining the same log again finds nothing new, so that second call is modelled as
+what is left of it: the trim of the listing to its last `amount` entries and the clock update
+(assumption recorded in DESIGN §7: a `Join` that adds nothing leaves the heads as they are; provable
+for logs that satisfy `Inv`, validated by the correspondence run on the others).
+`fetch h` is the bounded Fetcher of go-ipfs-log (a parameter; contract in DESIGN §7). -/
+def loadHead (acl : Acl) (fetch : Nat → OMap) (amount : Int) (L : Log) (h : Nat) : Except Err Log :=
+  let l := logOfEntries L.id (fetch h)
+  match joinSize acl.canAppend L l.entries l.heads l.id (-1) with
+  | .ok L' =>
+    if amount > -1 && (values L').length > amount then (trim L' amount.toNat).map bumpClock else .ok L'
   | .error .panic => .error .panic
   | .error _ => .ok L            -- a failed join is ignored by `Load`
 
